@@ -8,6 +8,8 @@ EXPLAINED = ('the code notifies registered sync waiters one after the other insi
 def run(cfg, tier, seed, V, RUNNER):
     if cfg.get('kind') == 'pipein': return run_pipein(cfg, tier, seed, V, RUNNER)
     if cfg.get('kind') == 'pipe': return run_pipein(cfg, tier, seed, V, RUNNER, sub='pipe', exe='replay_pipe', name='pipe-replay')
+    if cfg.get('kind') == 'syncfut': return run_pipein(cfg, tier, seed, V, RUNNER, sub='syncfut', exe='replay_syncfut', name='syncfut-replay')
+    if cfg.get('kind') == 'l2': return run_pipein(cfg, tier, seed, V, RUNNER, sub='l2', exe='replay_l2', name='l2-replay')
     drv = os.path.join(V, 'driver')
     rc = subprocess.run(['sh', os.path.join(drv, 'build.sh')], stdout=subprocess.PIPE, stderr=subprocess.STDOUT, timeout=900)
     out = {'traces': 0, 'steps': 0, 'events': 0, 'skipped': 0, 'explained': 0, 'disagreements': [], 'stutters': 0}
@@ -66,7 +68,7 @@ def run_pipein(cfg, tier, seed, V, RUNNER, sub='pipein', exe='replay_pipein', na
         d = os.path.join(logroot, '%d' % pi)
         cmd = [RUNNER, 'run', '--seed', str(seed + 23), '--scheds', str(scheds), '--logdir', d, '--no-touch-yield', '--max-steps', '30000']
         if pr['name'].startswith('progs:'): cmd += ['--progs', os.path.join(V, 'corpus', pr['name'][6:])]
-        else: cmd += ['--profile', pr['name'], '--count', str(count)]
+        else: cmd += ['--profile', pr['name'], '--count', str(count)] + pr.get('extra', [])
         subprocess.run(cmd, stdout=subprocess.DEVNULL, stderr=subprocess.DEVNULL, timeout=1200)
         logs = sorted(glob.glob(os.path.join(d, '*.log')))
         for i in range(0, len(logs), 400):
@@ -81,5 +83,7 @@ def run_pipein(cfg, tier, seed, V, RUNNER, sub='pipein', exe='replay_pipein', na
     keep = set(d.get('log') for d in out['disagreements'])
     for f in glob.glob(os.path.join(logroot, '*', '*.log')):
         if f not in keep: os.remove(f)
-    out['explained_reason'] = 'logs in which the harness stream yields an item pushed after the stream was closed are skipped (the model\'s input, like a real Stream, has no item after its end)'
+    if sub == 'syncfut': out['explained_reason'] = 'skipped logs: no future_sync in the program, body primitives other than t / w<e>, future_sync nested in a body, suspension (U), or a future on the same object awaited with .sync() (its queue job has no marker)'
+    elif sub == 'l2': out['explained_reason'] = 'skipped logs: programs outside the single-queue future language of the L2 model'
+    else: out['explained_reason'] = 'logs in which the harness stream yields an item pushed after the stream was closed are skipped (the model\'s input, like a real Stream, has no item after its end)'
     return out
